@@ -265,3 +265,57 @@ def levelise_config():
 def targets():
     return [Target('sim', 'SimOps.__init__', [levelise_config()], prims=prims, instantiate='fallback', body_slice=phase, label='levelisation phase',
                    note='statements from `levels = ...` to `self.level_stops = ...`')]
+
+
+# ------------------------------------------------------------------------------------------------------------ slot layout (prelude)
+class LenOnly(Model):
+    def __init__(self, n):
+        self.n = n
+
+    def m_len(self, ex, st, node):
+        return self.n
+
+
+def layout_phase(stmts):
+    """from the assignment of ``self.zero_idx`` to the assignment of ``self.c_locs_len``"""
+    a = b_ = None
+    for i, s in enumerate(stmts):
+        if isinstance(s, ast.Assign) and len(s.targets) == 1 and isinstance(s.targets[0], ast.Attribute):
+            if s.targets[0].attr == 'zero_idx' and a is None:
+                a = i
+            if s.targets[0].attr == 'c_locs_len':
+                b_ = i + 1
+    if a is None or b_ is None or b_ <= a:
+        from pyvc.engine import ContractError
+        raise ContractError('slot layout block not found in SimOps.__init__')
+    return a, b_
+
+
+def layout_config():
+    """special slots follow the lines, then one interface-input and one interface-output slot per interface node (the layout every other contract relies on)"""
+    def setup(ex):
+        st = State()
+        nl, sl = ex.fv('n_lines', 'int'), ex.fv('s_len', 'int')
+        st.assume(SBool(z3.And(nl.e >= 0, sl.e >= 0)))
+        st.env['self'] = SObj.new(st, 'self', s_len=sl)
+        st.env['circuit'] = SObj.new(st, 'circuit', lines=LenOnly(nl))
+        ex.g = dict(nl=nl.e, sl=sl.e)
+        return st
+
+    def post(ex, st):
+        g = ex.g
+        try:
+            f = {k: to_int(st.heap[('self', k)]) for k in ('zero_idx', 'tmp_idx', 'tmp2_idx', 'ppi_offset', 'ppo_offset', 'c_locs_len')}
+        except KeyError:
+            yield 'zero_idx, tmp_idx, tmp2_idx, ppi_offset, ppo_offset, c_locs_len are assigned', False
+            return
+        nl, sl = g['nl'], g['sl']
+        yield 'zero, tmp, tmp2 follow the lines; interface-input slots follow them; interface-output slots follow those; c_locs_len is the total', \
+            SBool(z3.And(f['zero_idx'] == nl, f['tmp_idx'] == nl + 1, f['tmp2_idx'] == nl + 2, f['ppi_offset'] == nl + 3, f['ppo_offset'] == nl + 3 + sl, f['c_locs_len'] == nl + 3 + 2 * sl))
+        ex.prove(st, 'mustfail:all special indices are 0', SBool(f['c_locs_len'] == 0), ex.fn, expect='refuted')
+    return Config('any circuit size', {'post': post}, setup, None)
+
+
+def targets_layout():
+    return [Target('sim', 'SimOps.__init__', [layout_config()], body_slice=layout_phase, label='slot layout',
+                   note='statements from `self.zero_idx = ...` to `self.c_locs_len = ...`')]
